@@ -526,6 +526,8 @@ pub fn nested_family() -> Vec<String> {
                     for body in bodies {
                         let fd = format!("f : (int -> int) = (x : int) => {fb}");
                         let gd = format!("g : (int -> int) = (y : int) => {gb}");
+                        let fd2 = fd.clone();
+                        let gd2 = format!("g : (int -> int) = (y : int) => y + c");
                         let mut defs = if f_first { vec![fd, gd] } else { vec![gd, fd] };
                         let body = if res.is_empty() { body.replace('r', "f 3") } else { body.to_owned() };
                         // with and without two further, independent helper functions after f and g
@@ -538,6 +540,14 @@ pub fn nested_family() -> Vec<String> {
                         }
                         out.push(format!("{}; {body}", defs.join("; ")));
                         out.push(format!("{}; {body}", with_helpers.join("; ")));
+                        // a non-value constant defined AFTER the functions that use it and before the
+                        // result that calls them (forward reference from a function to a non-value)
+                        if !res.is_empty() && gb == "y + 1" {
+                            let mut with_const = if f_first { vec![fd2.clone(), gd2.clone()] } else { vec![gd2.clone(), fd2.clone()] };
+                            with_const.push("c : int = 2 * 5".to_owned());
+                            with_const.push(res.to_owned());
+                            out.push(format!("{}; {body}", with_const.join("; ")));
+                        }
                     }
                 }
             }
@@ -546,4 +556,53 @@ pub fn nested_family() -> Vec<String> {
     out.sort();
     out.dedup();
     out
+}
+
+// Reference model of the definition-order rule (C01's mechanism, stated in the property): in every
+// definition group, a definition that is not a syntactic value may only depend — directly, or
+// indirectly through definitions that are syntactic values — on definitions that have been evaluated
+// by the time it is evaluated, i.e. on non-value definitions strictly before it. Returns true if some
+// group of the term breaks the rule. Only the *definitions* are inspected (annotations are not
+// evaluated).
+pub fn order_rule_violated(m: &M) -> bool {
+    fn group_violates(ds: &[(Rc<str>, crate::model::mterm::R, crate::model::mterm::R)]) -> bool {
+        let n = ds.len();
+        for i in 0..n {
+            if is_syntactic_value(&ds[i].2) {
+                continue;
+            }
+            let mut visited = vec![false; n];
+            let mut stack = vec![i];
+            let mut first = true;
+            while let Some(cur) = stack.pop() {
+                let mut fv = std::collections::BTreeSet::new();
+                crate::model::mterm::free_vars(&ds[cur].2, 0, &mut fv);
+                let _ = first;
+                first = false;
+                for v in fv {
+                    if v >= n {
+                        continue;
+                    }
+                    let j = n - 1 - v;
+                    if visited[j] {
+                        continue;
+                    }
+                    visited[j] = true;
+                    if is_syntactic_value(&ds[j].2) {
+                        stack.push(j);
+                    } else if j >= i {
+                        return true;
+                    }
+                }
+            }
+        }
+        false
+    }
+    match m {
+        M::Let(ds, b) => group_violates(ds) || ds.iter().any(|(_, a, d)| order_rule_violated(a) || order_rule_violated(d)) || order_rule_violated(b),
+        M::Lam(_, _, a, b) | M::Pi(_, _, a, b) | M::App(a, b) | M::Bin(_, a, b) => order_rule_violated(a) || order_rule_violated(b),
+        M::Neg(a) => order_rule_violated(a),
+        M::If(a, b, c) => order_rule_violated(a) || order_rule_violated(b) || order_rule_violated(c),
+        _ => false,
+    }
 }
